@@ -234,6 +234,8 @@ class Builder:
         # Storing commands before an conditional statement
         self._pre_context_commands: Dict[int, List[T_Cmd]] = {}
         self._pre_context_registers: Dict[int, List[operand.Register]] = {}
+        # Qubit handles that reserve virtual IDs while an EPR context is open
+        self._epr_context_qubits: Dict[operand.Register, List[Qubit]] = {}
 
         self._label_mgr = LabelManager()
 
@@ -575,6 +577,9 @@ class Builder:
         loop_register = self._mem_mgr.get_inactive_register(activate=True)
         pair = loop_register
 
+        # These handles only reserve the virtual IDs while the context is open.
+        self._epr_context_qubits[loop_register] = qubit_futures
+
         q_id = qubit_ids_array.get_future_index(pair)
         q = FutureQubit(conn=self._connection, future_id=q_id)
 
@@ -604,6 +609,8 @@ class Builder:
             loop_register=loop_register,
         )
         self._mem_mgr.remove_active_register(loop_register)
+        for q in self._epr_context_qubits.pop(loop_register, []):
+            q.active = False
 
     def _assert_epr_args(
         self,
@@ -1920,6 +1927,11 @@ class Builder:
             self._build_cmds_post_epr(
                 qubit_ids_array, params, ent_results_array, EPRType.K, role
             )
+            if params.sequential:
+                # All pairs use one and the same virtual ID, which the post routine
+                # has consumed before the next pair arrives.
+                for q in qubit_futures:
+                    q.active = False
 
         return qubit_futures, ent_results_array
 
